@@ -74,12 +74,12 @@ func runC05(c *kc.Ctx) {
 					c.Violation("receiver-not-set:"+g.Name+":"+s, fmt.Sprintf("%s: after `%s` the receiver differs from the returned value", g.Name, m),
 						map[string]string{"group": g.Name, "program": p.String(), "statement": m})
 				}
-				if afinal != ffinal {
-					// locate the first differing step
-					k := 0
-					for k < len(asteps) && k < len(fsteps) && asteps[k] == fsteps[k] {
-						k++
-					}
+				// compare after EVERY statement: a corrupted operand may be overwritten later
+				k := 0
+				for k < len(asteps) && k < len(fsteps) && asteps[k] == fsteps[k] {
+					k++
+				}
+				if afinal != ffinal || k < len(asteps) || k < len(fsteps) {
 					st := "?"
 					if k < len(p.stmts) {
 						st = p.stmts[k].String()
